@@ -1,19 +1,19 @@
 #!/bin/bash
-# Runs every kept seed against the check(s) of its property; prints one line per seed.
+# Runs every kept seed against the check(s) of its property; prints one line per seed.  PAR=<n> seeds in parallel.
 V=$(cd "$(dirname "$0")/.." && pwd); cd $V
 (cd $V/mirfacts && cargo build --release --offline -q) 2>/dev/null
-for d in ${SEEDS:-seeded/*/}; do
-  id=$(basename $d); prop=${id%-*}
-  props="$prop"
+one() {
+  d=$1; id=$(basename $d); prop=${id%-*}
   extra=$(python3 -c "
 import json;m=json.load(open('$d/meta.json'));print(' '.join(m.get('also_check',[])))" 2>/dev/null)
-  out=""
   cc=$(python3 -c "
 import json;m=json.load(open('$d/meta.json'));print(m.get('check_configs',''))" 2>/dev/null)
-  for P in $props $extra; do
-    if ./check $P --explain /dev/null >/dev/null 2>&1; then :; fi
-    r=$(MAXL=0 CONFIGS=${CONFIGS:-$cc} tools/run_seed.sh $V/$d/patch.diff $P 2>&1 | grep "^== " | tr '\n' ' ')
+  out=""
+  for P in $prop $extra; do
+    r=$(MAXL=2 CONFIGS=${CONFIGS:-$cc} tools/run_seed.sh $d/patch.diff $P 2>&1 | grep "^== \|rule=" | tr '\n' ' ' | cut -c1-160)
     out="$out $r"
   done
   echo "$id $out"
-done
+}
+export -f one
+ls -d ${SEEDS:-$V/seeded/*/} | xargs -P ${PAR:-4} -I{} bash -c 'one {}'
